@@ -20,6 +20,9 @@ import (
 	ibckeeper "github.com/cosmos/ibc-go/v7/modules/core/keeper"
 
 	oracletypes "github.com/settlus/chain/x/oracle/types"
+	settlementtypes "github.com/settlus/chain/x/settlement/types"
+
+	stakingtypes "github.com/cosmos/cosmos-sdk/x/staking/types"
 )
 
 // HandlerOptions defines the list of module keepers required to run the Settlus
@@ -98,6 +101,17 @@ func newCosmosAnteHandler(options HandlerOptions) sdk.AnteHandler {
 		cosmosante.NewAuthzLimiterDecorator( // disable the Msg types that cannot be included on an authz.MsgExec msgs field
 			sdk.MsgTypeURL(&evmtypes.MsgEthereumTx{}),
 			sdk.MsgTypeURL(&sdkvesting.MsgCreateVestingAccount{}), // Settlus do not support vesting accounts
+			// after genesis a validator is created through governance only, and settlement messages are charged
+			// by the fixed-fee rule of the settlus ante handler only: neither may be wrapped in authz
+			sdk.MsgTypeURL(&stakingtypes.MsgCreateValidator{}),
+			sdk.MsgTypeURL(&settlementtypes.MsgRecord{}),
+			sdk.MsgTypeURL(&settlementtypes.MsgCancel{}),
+			sdk.MsgTypeURL(&settlementtypes.MsgDepositToTreasury{}),
+			sdk.MsgTypeURL(&settlementtypes.MsgCreateTenant{}),
+			sdk.MsgTypeURL(&settlementtypes.MsgCreateTenantWithMintableContract{}),
+			sdk.MsgTypeURL(&settlementtypes.MsgAddTenantAdmin{}),
+			sdk.MsgTypeURL(&settlementtypes.MsgRemoveTenantAdmin{}),
+			sdk.MsgTypeURL(&settlementtypes.MsgUpdateTenantPayoutPeriod{}),
 			// oracle messages must pass the feeder check of the settlus ante handler: never inside authz
 			sdk.MsgTypeURL(&oracletypes.MsgPrevote{}),
 			sdk.MsgTypeURL(&oracletypes.MsgVote{}),
